@@ -132,6 +132,7 @@ type loopInfo struct {
 	header *ssa.BasicBlock
 	body   map[*ssa.BasicBlock]bool
 	anchor string // source text of the loop statement's first line
+	decr   []*Clause
 	pos    token.Pos
 	bodyPos token.Pos
 	invs   []*Clause
@@ -782,6 +783,11 @@ func (g *Gen) execFunc(fr *Frame, st *State, guard string) ([]Val, *State, strin
 					li.invs = append(li.invs, inv)
 				}
 			}
+			for _, d := range fr.fc.Decr {
+				if d.Anchor != "" && strings.Contains(li.anchor, d.Anchor) {
+					li.decr = append(li.decr, d)
+				}
+			}
 		}
 	}
 	fr.detectJointExit()
@@ -1081,6 +1087,30 @@ func sortedKeysB(m map[string]bool) []string {
 func (g *Gen) checkInvariants(fr *Frame, li *loopInfo, st *State, guard string, backEdge int, when string) {
 	if g.dry > 0 {
 		return
+	}
+	if backEdge >= 0 {
+		// termination: the variant is bounded below at the head and strictly smaller at the back edge
+		for _, d := range li.decr {
+			envNow := g.envFor(fr, st)
+			envNow.pos = li.bodyPos
+			envHead := g.envFor(fr, li.headSt)
+			envHead.pos = li.bodyPos
+			now, err1 := g.eval(d.Expr, envNow)
+			head, err2 := g.eval(d.Expr, envHead)
+			if err1 != nil || err2 != nil || now.S != "Int" || head.S != "Int" {
+				err := err1
+				if err == nil {
+					err = err2
+				}
+				if err == nil {
+					err = fmt.Errorf("variant must be an integer")
+				}
+				g.contractError(d, err)
+				continue
+			}
+			g.addObligation(&Obligation{Name: fmt.Sprintf("%s.loop[%s].terminates", fr.topKey(), d.Anchor), Func: fr.topKey(), Kind: "decreases", Props: d.Props,
+				Guard: guard, Goal: fmt.Sprintf("(and (>= %s 0) (< %s %s))", head.T, now.T, head.T), Src: "decreases " + d.Src, Pos: fmt.Sprintf("%s:%d", d.File, d.Line)})
+		}
 	}
 	for _, inv := range li.invs {
 		env := g.envFor(fr, st)
